@@ -430,3 +430,26 @@ func lemmaOriginRoundTrip(p []byte) ([]byte, int) {
 //@   ensures gb.Origin.Parsed ==> n == len(gb.Origin.Buffer)
 //@   ensures !gb.Origin.Parsed ==> n == nres(len(gb.Origin.Buffer))
 //@   assigns nothing
+
+// GenBankFields.Slice: the metadata of a sliced record.  The receiver is a copy; the caller's
+// reference list is read, never written; every rewritten REFERENCE range is a non-empty range
+// inside the window (1-based text "a to b" with 1 <= a <= b <= end-start).
+//@ func (gbf GenBankFields) Slice$1(info string) (locs []gts.Ranged, ok bool)
+//@   trusted the REFERENCE info parser is built from go-pars combinators (parseReferenceInfo): on success its value is the list of ranges it read
+//@   ensures fresh(locs) && (forall k in 0..len(locs): locs[k].Start < locs[k].End)
+//@   assigns nothing
+//@ func (gbf GenBankFields) Slice(start, end int) (out any)
+//@   prop C03 C11
+//@   requires 0 <= start && start < end && end <= 1099511627776
+//@   callpre Sprintf(f, a): f == "%d to %d" ==> len(a) == 2 && 1 <= a[0].(int) && a[0].(int) <= a[1].(int) && a[1].(int) <= end - start
+//@   assigns nothing
+//@   loop 1: invariant fresh(refs)
+//@   loop 1: decreases len(gbf.References) - idx1
+//@   loop 2: invariant fresh(olap) && (forall k in 0..len(olap): rangedOverlap(olap[k], start, end) && olap[k].Start < olap[k].End)
+//@   loop 2: invariant forall k in 0..len(locs): locs[k].Start < locs[k].End
+//@   loop 2: decreases len(locs) - idx2
+//@   loop 3: invariant fresh(ss) && len(ss) == len(olap) && (forall k in 0..len(olap): rangedOverlap(olap[k], start, end) && olap[k].Start < olap[k].End)
+//@   loop 3: decreases len(olap) - i
+//@   loop 4: invariant fresh(refs)
+//@   loop 4: decreases len(refs) - i
+//@ spec macro rangedOverlap(r gts.Ranged, lo int, hi int) bool = min(r.Start, r.End) < max(lo, hi) && min(lo, hi) < max(r.Start, r.End)
